@@ -62,7 +62,9 @@ func (sm *SeatManager) renewSeatStatus() error {
 	origSeats := sm.getNormalizeSeats(sm.dealer.ID)
 	seats := origSeats
 
-	if sm.getPlayableSeatCount() == 2 {
+	headsUp := sm.getPlayableSeatCount() == 2
+
+	if headsUp {
 		// dealer is SB as well
 		sm.sb = sm.dealer
 	} else {
@@ -94,6 +96,12 @@ func (sm *SeatManager) renewSeatStatus() error {
 	seats = seats[1:]
 	for _, s := range seats {
 		s.IsActive = true
+	}
+
+	// Waiting players behind the big blind have just been let in: with more than
+	// two players the dealer is not the small blind, so the blinds are set again
+	if headsUp && sm.getPlayableSeatCount() > 2 {
+		return sm.renewSeatStatus()
 	}
 
 	return nil
